@@ -31,7 +31,13 @@ var ops = map[OpCode]OpFunc{
 	"-": func(left, right float64) float64 { return left - right },
 	"/": func(left, right float64) float64 { return left / right },
 	"^": math.Pow,
-	"%": func(left, right float64) float64 { return float64(int64(left) % int64(right)) },
+	"%": func(left, right float64) float64 {
+		divisor := int64(right)
+		if divisor == 0 { // undefined, like 0/0 (an integer division by zero would panic)
+			return math.NaN()
+		}
+		return float64(int64(left) % divisor)
+	},
 
 	// Shift
 	"<<": func(left, right float64) float64 { return float64(int64(left) << int64(right)) },
